@@ -11,7 +11,7 @@ PID = "C20"
 LEVEL = "model_checking"
 RULE = ("construction: model.rating / create_rating for every (mu, sigma) of the 26-value alphabet (zeros, signed zeros, negatives, "
         "ints, huge/tiny) + bools x names {omitted, None, 'a', 'ü'} x every omission pattern, on default and non-default models, 5 "
-        "classes; 10^4 ids distinct, also when the global random generator is re-seeded / restored between constructions; deepcopy of ratings, teams and leagues; differential: every game of T3|V6, P3 and G4|V6 rated / "
+        "classes; 10^4 ids distinct, also when the global random generator is re-seeded / restored between constructions and across a fork; deepcopy of ratings, teams and leagues; differential: every game of T3|V6, P3 and G4|V6 rated / "
         "predicted with the original objects, with objects rebuilt by create_rating([mu,sigma]), by model.rating(mu,sigma) and by "
         "deepcopy must give bit-identical numbers; E2: restore / deepcopy transitions interleaved with every operation of the "
         "reduced alphabet to depth 2 (thorough adds depth 4 over the small alphabet), I5 on every restore/copy transition and I2 (the call on players rebuilt from their (mu, sigma) on a "
@@ -93,6 +93,34 @@ def eval_ids(kind):
             msgs.append(f"{kind}: {len(allids) - len(set(allids))} duplicate ids among {len(allids)} fresh ratings when the application re-seeds / restores the global random generator between constructions")
     finally:
         random.setstate(state)
+    # ... nor on state that a forked worker inherits from its parent (pre-fork servers, multiprocessing "fork")
+    import os
+
+    mine = []
+    r_, w_ = os.pipe()
+    pid = os.fork()
+    if pid == 0:
+        try:
+            ids_c = [model.rating().id for _ in range(15)] + [model.create_rating([1.0, 2.0]).id for _ in range(15)]
+            os.write(w_, ",".join(ids_c).encode())
+        finally:
+            os._exit(0)
+    os.close(w_)
+    mine = [model.rating().id for _ in range(15)] + [model.create_rating([1.0, 2.0]).id for _ in range(15)]
+    data = b""
+    while True:
+        chunk = os.read(r_, 65536)
+        if not chunk:
+            break
+        data += chunk
+    os.close(r_)
+    os.waitpid(pid, 0)
+    theirs = data.decode().split(",") if data else []
+    if len(theirs) != 30:
+        raise core.HarnessError("forked id probe returned no data")
+    common = set(mine) & set(theirs)
+    if common:
+        msgs.append(f"{kind}: {len(common)} of 30 ids created in a forked child are identical to ids created in the parent after the fork")
     return msgs
 
 
